@@ -95,6 +95,9 @@ pub enum Dec<T> {
 /// the bytes read_data consumes and the value it returns: uninterpreted (the Data codec is not under contract)
 pub uninterp spec fn d_data(s: Seq<u8>) -> Dec<Data>;
 
+/// the bytes read_data_arc consumes (uninterpreted; the value codec is not under contract)
+pub uninterp spec fn d_data_arc(s: Seq<u8>) -> Dec<DataArc>;
+
 pub mod trusted_data_codec {
     use super::*;
 
@@ -106,6 +109,16 @@ pub mod trusted_data_codec {
             data_encodable(d),
         ensures
             d_data(enc_data(d) + tail) == Dec::Ok(d, tail),
+    {
+    }
+
+    /// ASSUMED: same for values behind an Arc (write_data_arc / read_data_arc)
+    #[verifier::external_body]
+    pub proof fn axiom_rt_data_arc(d: DataArc, tail: Seq<u8>)
+        requires
+            data_arc_encodable(d),
+        ensures
+            d_data_arc(enc_data_arc(d) + tail) == Dec::Ok(d, tail),
     {
     }
 
